@@ -176,7 +176,7 @@ func genLexCmd(in *bufio.Scanner, out *bufio.Writer, args []string) error {
 		// a lexically significant fragment placed so that it straddles a bufio fill boundary (4096, 8192), in every
 		// scanner context: look-ahead (Peek) and multi-byte decoding must not depend on where the buffer ends
 		ctxs := []struct{ open, close string }{{"", ""}, {"/* ", " */"}, {"'", "'"}, {"`", "`"}, {"\"", "\""}, {"-- ", "\n"}, {"# ", "\n"}, {"$$", "$$"}, {"$t$", "$t$"}, {"{", "}"}, {"x'", "'"}}
-		frags := []string{"*/", "/*", "/*/", "''", "\\'", "\\\\", "``", "\\`", "\"\"", "\\\"", "é", "日", "😀", "\r\n", "::", "<=>", "->", "||", "--", "$$", "$t$", "0x1f", "1e5", "1.5", "@@v", "x'41'", "{p:T}", "ab", "\xff\xfe", " \n", "\\x41", "\\n", ";", "−", "‘", "’"}
+		frags := []string{"*/", "/*", "/*/", "''", "\\'", "\\\\", "``", "\\`", "\"\"", "\\\"", "é", "日", "😀", "\r\n", "::", "<=>", "->", "||", "<=", ">=", "!=", "<>", "==", "a<=b", "1.5e-3", "1..2", "a.1", "--", "$$", "$t$", "0x1f", "1e5", "1.5", "@@v", "x'41'", "{p:T}", "ab", "\xff\xfe", " \n", "\\x41", "\\n", ";", "−", "‘", "’"}
 		for _, c := range ctxs {
 			for _, f := range frags {
 				for _, at := range []int{4096, 8192} {
